@@ -6,6 +6,7 @@
 (*   failed   the subscription failed;  published  the query event was sent  *)
 (*   expired  the duration elapsed and the system was left time to settle    *)
 (*   exited   the listener goroutine ended                                   *)
+(*   overlap  a query callback started while a callback of the group ran      *)
 EXTENDS Naturals, Sequences, FiniteSets, TLC, Json
 Trace == ndJsonDeserialize("trace.ndjson")
 VARIABLE l
@@ -24,7 +25,8 @@ Clause(c) ==
       [] c = "nil-last"   -> Count("nil", R.cblog) >= 1 => R.cblog[Len(R.cblog)] = "nil"
       [] c = "failed-sub" -> R.failed => (~R.published /\ R.cblog = <<"nil">>)
       [] c = "released"   -> R.expired => R.exited
+      [] c = "serialized" -> ~R.overlap     \* no query callback ran while another callback of the resource's group was inside
       [] OTHER -> FALSE
-Clauses == {"one-reply", "callback-per-request", "nil-once", "nil-at-most-once", "nil-last", "failed-sub", "released"}
+Clauses == {"serialized", "one-reply", "callback-per-request", "nil-once", "nil-at-most-once", "nil-last", "failed-sub", "released"}
 RecordOK == IF R.judge = "all" THEN \A c \in Clauses : Clause(c) ELSE Clause(R.judge)
 =============================================================================
